@@ -3,6 +3,7 @@ package harness
 import (
 	"encoding/json"
 	"fmt"
+	"hash/crc32"
 	"os"
 	"path/filepath"
 	"sort"
@@ -309,6 +310,34 @@ func observedUniq(recs []parsedRec, o uniqOpts) ([]string, error) {
 	return out, nil
 }
 
+// crcTwins returns distinct sequences of one length whose CRC-32 (IEEE) is the same: found by
+// birthday search over a deterministic stream of 24-mers (about 80 000 candidates, a few ms).
+var crcTwinCache [][2]string
+
+func crcTwins() [][2]string {
+	if crcTwinCache != nil {
+		return crcTwinCache
+	}
+	seen := map[uint32]string{}
+	x := uint64(0x9E3779B97F4A7C15)
+	for len(crcTwinCache) < 3 {
+		b := make([]byte, 24)
+		for i := range b {
+			x ^= x << 13
+			x ^= x >> 7
+			x ^= x << 17
+			b[i] = dna[x&3]
+		}
+		s := string(b)
+		h := crc32.ChecksumIEEE(b)
+		if o, ok := seen[h]; ok && o != s {
+			crcTwinCache = append(crcTwinCache, [2]string{o, s})
+		}
+		seen[h] = s
+	}
+	return crcTwinCache
+}
+
 func drawUniqCase(t *simrt.Tape, thorough bool) ([]uniqRec, uniqOpts) {
 	maxRecs, maxSeqs := 40, 10
 	if thorough {
@@ -326,6 +355,11 @@ func drawUniqCase(t *simrt.Tape, thorough bool) ([]uniqRec, uniqOpts) {
 			s = string(b)
 		}
 		seqs = append(seqs, s)
+	}
+	if t.Choose(4) == 3 {
+		// two different sequences that any 32-bit CRC keyed table takes for one
+		tw := crcTwins()[t.Choose(3)]
+		seqs = append(seqs, tw[0], tw[1])
 	}
 	n := 2 + t.Choose(maxRecs-1)
 	recs := make([]uniqRec, n)
